@@ -108,6 +108,10 @@ func funcKey(pkgPath, name string) string {
 	if strings.HasPrefix(name, "iface ") {
 		return "iface:" + strings.TrimSpace(name[6:])
 	}
+	if strings.HasPrefix(name, "type ") {
+		// any function value of a named func type "type T" (T of the current package)
+		return "functype:" + pkgPath + "." + strings.TrimSpace(name[5:])
+	}
 	if strings.HasPrefix(name, "field ") {
 		// the function stored in a func-typed struct field: "field T.f" (T of the current package)
 		return "field:" + pkgPath + "." + strings.TrimSpace(name[6:])
